@@ -26,11 +26,21 @@ type Gen struct {
 	dumpfiles  bool
 	lineage    map[string]map[string]bool // segment -> base segments it derives from
 	disjoint   bool                       // merge inputs must have pairwise disjoint lineages (vector ids are unique per base segment)
+	// per run: the optimisation type of each vector field and the similarity of vecB (a field keeps
+	// them across the segments of one index, so they are fixed for the whole script)
+	vecOpt     map[string]string
+	vecBMetric string
 }
 
 func newGen(seed int64, tier string, w *bufio.Writer) *Gen {
-	return &Gen{r: rand.New(rand.NewSource(seed)), tier: tier, w: w, stats: map[string]int{},
+	g := &Gen{r: rand.New(rand.NewSource(seed)), tier: tier, w: w, stats: map[string]int{},
 		univ: map[string]*Universe{}, ndocs: map[string]int{}, curMode: 1026, lineage: map[string]map[string]bool{}}
+	// drawn from a generator of their own so that the main stream of choices is what it was
+	r2 := rand.New(rand.NewSource(seed*7919 + 13))
+	opts := []string{"recall", "latency", "memory-efficient"}
+	g.vecOpt = map[string]string{"vecA": opts[r2.Intn(3)], "vecB": opts[r2.Intn(3)]}
+	g.vecBMetric = []string{"dot_product", "cosine"}[r2.Intn(2)]
+	return g
 }
 
 func (g *Gen) emit(format string, a ...interface{}) {
@@ -50,9 +60,12 @@ func (g *Gen) chance(p float64) bool   { return g.r.Float64() < p }
 var termAlphabet = [][]byte{
 	[]byte("a"), []byte("b"), []byte("ab"), []byte("abc"), []byte("b\xc3\xa9"), []byte("\xe6\x97\xa5"),
 	[]byte("zz"), []byte("c"), []byte("ba"), {}, []byte("aa"), []byte("q"),
+	// not text: a NUL, high bytes (0xff itself is the doc-value term separator of the format and
+	// never part of a term), and a term longer than any one-byte length
+	{0x00}, {0xfe}, {0x80, 0x01}, bytes.Repeat([]byte("lo"), 150),
 }
 
-var fieldPool = []string{"body", "name", "tag", "desc", "x1", "x2", "zeta"}
+var fieldPool = []string{"body", "name", "tag", "desc", "x1", "x2", "zeta", strings.Repeat("longname", 20)}
 
 type batchCfg struct {
 	maxDocs   int
@@ -268,8 +281,9 @@ func (g *Gen) randBatch(name string, cfg batchCfg) *BatchSpec {
 				nv = 2 + g.r.Intn(2)
 			}
 			if vf.Name == "vecB" {
-				vf.Metric = "dot_product"
+				vf.Metric = g.vecBMetric
 			}
+			vf.Opt = g.vecOpt[vf.Name]
 			for k := 0; k < nv*dim; k++ {
 				vf.Vec = append(vf.Vec, g.r.Intn(9)-4)
 			}
@@ -813,6 +827,11 @@ func (g *Gen) genMergeCase(cfgMod func(*batchCfg), dump func(seg string), depth 
 			}
 		}
 		g.emitBatch(b)
+		if g.chance(0.3) {
+			// inputs written under different chunk modes (a configuration change between segments)
+			g.setMode()
+			g.st("input.othermode")
+		}
 		s := g.fresh("s")
 		g.emit("build %s %s", s, b.Name)
 		g.newBuilt(s, b)
@@ -830,6 +849,9 @@ func (g *Gen) genMergeCase(cfgMod func(*batchCfg), dump func(seg string), depth 
 		}
 	}
 	for lvl := 0; lvl < depth; lvl++ {
+		if g.chance(0.3) {
+			g.setMode() // the merge output in yet another chunk mode
+		}
 		k := 1 + g.r.Intn(3)
 		if k > len(pool) {
 			k = len(pool)
